@@ -152,7 +152,7 @@ func run(o hx.RunOpts) error {
 		return err
 	}
 	kinds2 := []string{"m", "m", "t0", "t5", "t17", "t18", "c", "k"}
-	mixes := o.N(2, 6)
+	mixes := o.N(8, 30)
 	for _, cfg := range ecx.Configs(o.Thorough()) {
 		d, par := cfg[0], cfg[1]
 		n := d + par
